@@ -1,5 +1,5 @@
 """C01 Save/reload stability (structural necessary conditions; see DESIGN.md section 3, C01)"""
-from . import genrules, textrules
+from . import genrules, textrules, plumbing
 
 
 def run(chk):
@@ -10,4 +10,5 @@ def run(chk):
     textrules.r01_esc(chk)
     textrules.r01_fmt(chk)
     textrules.r01_hex(chk)
+    plumbing.r05_plumb(chk, rule="R01-plumb")
     chk.assumptions += ["not decided: equality of the reloaded model and byte identity of the text for all inputs (runtime values)"]
